@@ -59,7 +59,10 @@ type EncSpec struct {
 	// Decoy: with an INLINE key, a second xenc:EncryptedKey as a sibling of EncryptedData (where a detached key
 	// goes) that is meant for somebody else — "other": wrapped for E2 and naming E2's certificate; "garbage": an
 	// undecryptable CipherValue. SAML allows one EncryptedKey per recipient; the inline one is this SP's.
-	Decoy   string `json:"decoy,omitempty"`
+	Decoy string `json:"decoy,omitempty"`
+	// KeySize: the data EncryptionMethod carries the optional xenc:KeySize child (the true size in bits):
+	// schema-legal decoration of the method
+	KeySize bool   `json:"keySize,omitempty"`
 	Key     []byte `json:"key"`     // content-encryption key
 	IV      []byte `json:"iv"`      // 12 bytes (GCM) or 16 (CBC)
 	PadFill byte   `json:"padFill"` // filler for CBC padding bytes other than the last
@@ -139,7 +142,11 @@ func (e *EncSpec) EncryptElement(plain []byte, ns NSStyle) (*etree.Element, erro
 	ed.CreateAttr("Type", "http://www.w3.org/2001/04/xmlenc#Element")
 	ea.AddChild(ed)
 	if !e.NoMethod {
-		ed.CreateElement("xenc:EncryptionMethod").CreateAttr("Algorithm", e.DataAlg)
+		dm := ed.CreateElement("xenc:EncryptionMethod")
+		dm.CreateAttr("Algorithm", e.DataAlg)
+		if e.KeySize {
+			dm.CreateElement("xenc:KeySize").SetText(fmt.Sprint(8 * len(e.Key)))
+		}
 	}
 	var ek *etree.Element
 	if !e.NoKey {
